@@ -149,22 +149,32 @@ def split_invariance(ck, pid, progs):
     forms = FORMS
     base = IR.run_doc(IR.build_doc(progs, forms), len(progs))
 
+    count = [0]
+
     def splitter(prog):
-        toks = [IR.tok_bytes(t) for t in prog]
-        k = rng.randrange(1, max(2, len(toks)))
-        k2 = rng.randrange(k, len(toks) + 1)
+        # lexical tokens, not operands: the division may fall inside an array operand (between two elements of a TJ
+        # array, after `[`, before `]`) as well as between an operand and its operator
+        toks = IR.lex_tokens(prog)
+        i = count[0]
+        count[0] += 1
+        if 1 <= i < len(toks):
+            # exhaustive part: one division at every lexical boundary of the program, in turn
+            cuts = [i]
+        else:
+            cuts = sorted(rng.sample(range(1, len(toks)), min(len(toks) - 1, rng.choice([2, 2, 3, 4]))))
+        parts = []
+        lo = 0
+        for c in cuts + [len(toks)]:
+            parts.append(b" ".join(toks[lo:c]))
+            lo = c
         # the division falls AT white space: the white-space character stays with one of the two streams
-        ws = [rng.choice([b" ", b"\n", b"\r\n"]) for _ in range(2)]
-        a, b, c = b" ".join(toks[:k]), b" ".join(toks[k:k2]), b" ".join(toks[k2:])
-        if rng.random() < 0.5:
-            a += ws[0]
-        else:
-            b = ws[0] + b
-        if rng.random() < 0.5:
-            b += ws[1]
-        else:
-            c = ws[1] + c
-        return [a, b, c]
+        for j in range(len(parts) - 1):
+            ws = rng.choice([b" ", b"\n", b"\r\n"])
+            if rng.random() < 0.5:
+                parts[j] += ws
+            else:
+                parts[j + 1] = ws + parts[j + 1]
+        return parts
     other = IR.run_doc(IR.build_doc(progs, forms, split=splitter), len(progs))
     for p, a, b in zip(progs, base, other):
         ck.case(1, None)
